@@ -153,7 +153,8 @@ struct VecMon
         }
         if (db != 0 && blk)
         {
-            if (blk->arena != m.arena)
+            using AK = typename std::decay_t<decltype(cv.get_allocator())>::kind;
+            if (blk->arena != (AK::ALWAYS_EQUAL ? 0 : m.arena))
                 violation("C08,C07", "block_of_foreign_arena", fmt("%s: storage block belongs to arena %d, get_allocator() is arena %d", who, blk->arena, m.arena), op, pre);
             if (mc > blk->bytes)
                 violation("C02", "memory_consumption_exceeds_block", fmt("%s: memory_consumption() == %zu but the allocator handed out %zu bytes", who, mc, blk->bytes), op, pre);
